@@ -14,6 +14,15 @@ ORACLE_ASSUMPTIONS = [
     "verdict covers only the executions sampled (stratified PRNG generators, seed VERIF_SEED)",
 ]
 
+def c06_units():
+    return [
+        {"name": "c06_a", "src": "harness/c06.cpp", "defs": ["-DTS=0"], "flavor": "asan", "shards": {"quick": 4, "thorough": 8}},
+        {"name": "c06_b", "src": "harness/c06.cpp", "defs": ["-DTS=1"], "flavor": "asan", "shards": {"quick": 4, "thorough": 8}},
+        {"name": "c06_v", "src": "harness/c06.cpp", "defs": ["-DTS=2"], "flavor": "asan", "shards": {"quick": 2, "thorough": 4}},
+        {"name": "c06_c", "src": "harness/c06.cpp", "defs": ["-DTS=3"], "flavor": "asan", "shards": {"quick": 4, "thorough": 8}, "tiers": ["thorough"]},
+    ]
+
+
 PROPS = {
     "C01": {
         "units": alg_units(1),
@@ -55,5 +64,17 @@ PROPS = {
         "floors": {"min_evaluations": {"quick": 20000, "thorough": 200000},
                    "cells": [r"SE2d\.d2r_exp\|rot:1e-4", r"SE3d\.d2r_expinv\|rot:1e-4", r"d_matrix_product\|dynamic", r"d2_fog\.end_to_end\|.*sparseJf"]},
         "assumptions": ORACLE_ASSUMPTIONS,
+    },
+    "C06": {
+        "units": c06_units(),
+        "rule": "cases = (g1,g2,a) per Bundle composition (8 compositions quick, 12 thorough: order, repetition, nesting, single member, "
+                "commutative-only, float) and (x,y,a) per vector/scalar type (fixed 1..6, dynamic 0..12, double, float); every member is "
+                "compared with the same operation on part<i>() arranged by the oracle's own prefix sums (<= 2 ulp, zero outside blocks); "
+                "distinct = distinct (g1,a) bit patterns; non-trivial = a != 0 (vectors: size > 0)",
+        "floors": {"min_evaluations": {"quick": 100000, "thorough": 1000000},
+                   "cells": [r"B<B<SO3d,R2d>,SE2d,R1d>\.d2r_exp\.part0", r"B<Galileid,R1d,SE_2_3d>\.Ad\.outside_zero", r"RXd\.d2r_exp\|n=0", r"float\.composition"],
+                   "counters": ["C06.biteq_comparisons"]},
+        "assumptions": ["parts (judged by C01-C05) are the reference; arrangement uses the oracle layouts' own prefix sums",
+                        "verdict covers only the executions sampled"],
     },
 }
